@@ -198,3 +198,45 @@ def sweep_space(perturbs: List[dict], tail: Optional[List[dict]] = None, max_tic
     if thin > 1:
         cases = cases[::thin]
     return cases, len(cases)
+
+
+def overlap_family(tails: List[List[dict]], thin: int = 1) -> List[dict]:
+    """Two tasks cancelled one after the other, each with a slow (gated) cancel callback, and a flush() started in between that
+    is still suspended when the second cancellation arrives and returns while the second task sits in its callback:
+
+        spawn ; tick 3 ; cancel A ; tick a ; flush (actor) ; tick b ; cancel B ; tick c ; gate k ; settle ; <tail>
+
+    for every a, b, c in 0..2, k in 0..3 (which waiter is let go first), both return_exceptions values, request kinds and sizes."""
+    cases: List[dict] = []
+    slow = {"async": True, "wait": True}
+    for size in (2, 3, None):
+        for kind, extra in (("map", {"n": 5, "nc": 2}), ("apply", {"num": 3}), ("starmap", {"n": 4, "nc": 3})):
+            for ecb in (None, slow):
+                sp = {"op": "spawn", "pool": 0, "kind": kind, "worker": {"script": [["wait"]], "fname": "w"}, "place": "inline", "ccb": dict(slow), **extra}
+                if ecb is not None:
+                    sp["ecb"] = dict(ecb)
+                for re_ in (False, True):
+                    for a, b, c in itertools.product(range(3), range(3), range(3)):
+                        for k in range(4):
+                            for tail in tails:
+                                steps = [copy.deepcopy(sp), {"op": "tick", "k": 3},
+                                         {"op": "cancel", "pool": 0, "refs": [["live", 0]], "place": "inline"}]
+                                if a:
+                                    steps.append({"op": "tick", "k": a})
+                                fl = {"op": "flush", "pool": 0, "place": "task" if a == 1 else "eager"}
+                                if re_:
+                                    fl["re"] = True
+                                steps.append(fl)
+                                if b:
+                                    steps.append({"op": "tick", "k": b})
+                                steps.append({"op": "cancel", "pool": 0, "refs": [["run", 1]], "place": "inline"})
+                                if c:
+                                    steps.append({"op": "tick", "k": c})
+                                steps.append({"op": "gate", "k": k, "place": "inline"})
+                                steps.append({"op": "settle"})
+                                steps.extend(copy.deepcopy(tail))
+                                cases.append({"pools": [{"cls": "TaskPool", "size": size}], "steps": steps})
+    return cases[::thin] if thin > 1 else cases
+
+
+DRAIN = [{"op": "gate_all", "place": "inline"}, {"op": "settle"}, {"op": "gate_all", "place": "inline"}, {"op": "settle"}]
